@@ -33,8 +33,10 @@ class Sink:
         return f"{self.rel[:-3].replace('/', '.')}.{self.fname}#sink[{self.ordinal}]"
 
     def verdict(self):
-        if any(e[0] is False for e in self.evals):
+        if any(e[0] is False and not (len(e) > 4 and e[4]) for e in self.evals):
             return False
+        if any(e[0] is False for e in self.evals):
+            return None     # refuted only in a calling context that comes from possibly-dead code
         if self.evals and all(e[0] is True for e in self.evals):
             return True
         return None
@@ -187,7 +189,14 @@ class RoleFlow:
                 extra[k.arg] = self.absval(k.value, env)
         if fdef.args.kwarg:
             bind[fdef.args.kwarg.arg] = ("dict", extra)
-        return self.analyse(name, bind)
+        maybe = id(node) in self.live.maybe_nodes
+        if maybe:
+            self._maybe = getattr(self, "_maybe", 0) + 1
+        try:
+            return self.analyse(name, bind)
+        finally:
+            if maybe:
+                self._maybe -= 1
 
     # ---------------------------------------------------------------- functions
     def sink_of(self, fname, rel, node):
@@ -201,7 +210,7 @@ class RoleFlow:
         return id(node) in self.live.dead_nodes
 
     def analyse(self, name, bind):
-        key = (name, tuple(sorted((k, freeze(v)) for k, v in bind.items())))
+        key = (name, tuple(sorted((k, freeze(v)) for k, v in bind.items())), bool(getattr(self, "_maybe", 0)))
         if key in self.seen:
             return self.ret.get(key)
         self.seen.add(key)
@@ -221,7 +230,7 @@ class RoleFlow:
                     a, ha, ua = self.poly(sub, env, "act")
                     if he or ha:
                         ok = None if (ue or ua) else (pkey(e) == pkey(a))
-                        self.sink_of(name, rel, sub).evals.append((ok, pstr(e), pstr(a), ctx))
+                        self.sink_of(name, rel, sub).evals.append((ok, pstr(e), pstr(a), ctx, bool(getattr(self, "_maybe", 0))))
                 if isinstance(s, ast.Assign):
                     v = self.absval(s.value, env)
                     for t in s.targets:
